@@ -22,6 +22,9 @@ class Monitor:
     def on_op(self, rec, view):
         pass
 
+    def before_op(self, view):
+        pass
+
     def at_end(self, view):
         pass
 
@@ -40,6 +43,7 @@ class HistoryRunner:
         self.fz = None
         self.w = None
         self.reported = set()
+        self.want_before = any(type(m).before_op is not Monitor.before_op for m in monitors)
         for m in monitors:
             m.attach(self)
 
@@ -86,6 +90,10 @@ class HistoryRunner:
             try:
                 for k in range(self.n_ops):
                     self.cur_op = k
+                    if self.want_before:
+                        v0 = View(w.engine)
+                        for m in self.monitors:
+                            m.before_op(v0)
                     rec = await fz.step()
                     if rec is None:
                         continue
